@@ -12,7 +12,7 @@ COL_WIDTH = 6.25  # default portrait col_width (8.5 - 2.25)
 def make_table(heights, groups=None, *, ndata=2, fonts=None, sizes=None, subline=None, page_by_levels=0,
                new_page=False, pageby_row=None, pageby_header=None, header="explicit", footnote=None, source=None,
                nrow=10, placements=None, tall_cols=None, title=False, group_first=True, rel_widths=None, shared=None,
-               reverse_group_cols=False, size_pattern=None, null_cells=None):
+               reverse_group_cols=False, size_pattern=None, null_cells=None, tall_header=0):
     """Deterministic builder.
     heights: list of target line counts per row.
     groups: list (one per page_by level) of per-row values; subline: per-row values or None.
@@ -102,10 +102,16 @@ def make_table(heights, groups=None, *, ndata=2, fonts=None, sizes=None, subline
         body["text_font"] = fvec
         body["text_font_size"] = svec
     sec = {"df": {"cols": cols}, "body": body}
+    def label(tag, width):
+        # tall_header = k: the label wraps to k lines in its own cell (default header font, 9 pt)
+        if tall_header > 1 and not rel_widths:
+            return metrics.filler(tall_header, width, 1, 9, prefix=tag) or tag
+        return tag
+
     if header == "explicit":
-        sec["headers"] = [{"text": [f"@H0.{c}" for c in range(ndisp)]}]
+        sec["headers"] = [{"text": [label(f"@H0.{c}", COL_WIDTH / ndisp) if c == tall_header % ndisp else f"@H0.{c}" for c in range(ndisp)]}]
     elif header == "multi":
-        sec["headers"] = [{"text": ["@H0.0"], "col_rel_width": [1]}, {"text": [f"@H1.{c}" for c in range(ndisp)]}]
+        sec["headers"] = [{"text": [label("@H0.0", COL_WIDTH)], "col_rel_width": [1]}, {"text": [f"@H1.{c}" for c in range(ndisp)]}]
     elif header == "none":
         sec["headers"] = "none"
     else:
@@ -184,10 +190,25 @@ def nested_groups(draw, n, levels, capacity, dividers=False, nulls=False, restar
 
 
 @st.composite
+def lengthen_groups(draw, groups, p=4):
+    """Some group values become long enough to wrap to 2-3 lines when set across the whole table width."""
+    out = []
+    for col in groups:
+        longer = {}
+        for v in dict.fromkeys(col):
+            if isinstance(v, str) and v != "-----" and draw(st.integers(0, 9)) < p:
+                t = metrics.filler(draw(st.integers(2, 3)), COL_WIDTH, 1, 9, prefix=v)
+                if t is not None:
+                    longer[v] = t
+        out.append([longer.get(v, v) for v in col])
+    return out
+
+
+@st.composite
 def pag_recipe(draw, *, fonts=False, strategies=("plain", "page_by", "page_by_new", "subline"), max_rows=40, nrow_range=(2, 30),
                max_height=6, headers=("explicit", "default", "multi", "none"), levels_max=1, dividers=False,
                subline_with_page_by=False, pageby_rows=("column",), fn_src=True, placements=True, nulls=False,
-               widths=False, tall_headings=False):
+               widths=False, tall_headings=False, tall_headers=False):
     strat = draw(st.sampled_from(strategies))
     ndata = draw(st.integers(1, 3))
     levels = 0
@@ -217,15 +238,7 @@ def pag_recipe(draw, *, fonts=False, strategies=("plain", "page_by", "page_by_ne
             s = [9] * ndata
     groups = draw(nested_groups(n, levels, capacity, dividers=dividers, nulls=nulls)) if levels else None
     if tall_headings and levels and draw(st.integers(0, 9)) < 5:
-        # some group values are long enough to wrap to 2-3 lines when set across the whole table width
-        for lvl in range(levels):
-            longer = {}
-            for v in dict.fromkeys(groups[lvl]):
-                if isinstance(v, str) and v != "-----" and draw(st.integers(0, 9)) < 4:
-                    t = metrics.filler(draw(st.integers(2, 3)), COL_WIDTH, 1, 9, prefix=v)
-                    if t is not None:
-                        longer[v] = t
-            groups[lvl] = [longer.get(v, v) for v in groups[lvl]]
+        groups = draw(lengthen_groups(groups))
     rel = shared = None
     size_pattern = None
     if fonts and n >= 3 and draw(st.integers(0, 9)) < 3:
@@ -255,6 +268,7 @@ def pag_recipe(draw, *, fonts=False, strategies=("plain", "page_by", "page_by_ne
                      source=source, nrow=nrow, placements=pl, title=draw(st.booleans()),
                      tall_cols=[draw(st.integers(0, 2)) for _ in range(n)], group_first=draw(st.booleans()),
                      rel_widths=rel, shared=shared, reverse_group_cols=(levels >= 2 and draw(st.integers(0, 9)) < 3),
-                     size_pattern=size_pattern)
+                     size_pattern=size_pattern,
+                     tall_header=draw(st.integers(2, 3)) if (tall_headers and draw(st.integers(0, 9)) < 4) else 0)
     rec["strategy"] = strat
     return rec
